@@ -189,6 +189,10 @@ MUTANTS = [
      [(SQ + "app/mod.rs",
        "                } => {\n                    bail!(\"transactions have incorrect transaction group ordering\");\n                }",
        "                } => {\n                    return Ok(BreakOrContinue::Continue);\n                }", 0)]),
+    ("C17-lossy-decimals-cast", "W3", "Ticker decimals decoded with `as u8` instead of try_into (256 decodes as 0)",
+     [(CO + "oracles/price_feed/market_map.rs",
+       "            let decimals = raw\n                .decimals\n                .try_into()\n                .map_err(|_| TickerError::decimals_too_large())?;",
+       "            let decimals = raw.decimals as u8;", 0)]),
     ("C08-right-child-midpoint", "M4", "re-attached right child taken as the midpoint of the remaining nodes",
      [(MK + "lib.rs",
        "        let root = complete_root(n.checked_sub(i_plus_one).unwrap());\n        i_plus_one.checked_add(root).unwrap()",
